@@ -84,6 +84,11 @@ struct host_query {
 
   /* Track nodata responses to possibly override final result */
   size_t                nodata_cnt;
+
+  /* An answer was received but could not be converted for lack of memory.
+   * The other request of the same name may still be outstanding, so this has
+   * to be remembered until the decision is taken. */
+  ares_bool_t           nomem;
 };
 
 static const struct ares_addrinfo_hints default_hints = {
@@ -535,6 +540,10 @@ static void host_callback(void *arg, ares_status_t status, size_t timeouts,
     if (addinfostatus == ARES_SUCCESS && ai_has_ipv4(hquery->ai)) {
       terminate_retries(hquery, ares_dns_record_get_id(dnsrec));
     }
+
+    if (addinfostatus == ARES_ENOMEM) {
+      hquery->nomem = ARES_TRUE;
+    }
   }
 
   if (!hquery->remaining) {
@@ -543,6 +552,11 @@ static void host_callback(void *arg, ares_status_t status, size_t timeouts,
        * and return the appropriate status.  We won't return a partial
        * result in this case. */
       end_hquery(hquery, status);
+    } else if (hquery->nomem) {
+      /* Addresses of an accepted answer were lost, possibly those of the
+       * request that completed first: never report a partial list as
+       * success */
+      end_hquery(hquery, ARES_ENOMEM);
     } else if (addinfostatus != ARES_SUCCESS && addinfostatus != ARES_ENODATA) {
       /* error in parsing result e.g. no memory */
       if (addinfostatus == ARES_EBADRESP && hquery->ai->nodes) {
